@@ -1001,7 +1001,9 @@ func (c *FnCtx) execFor(st *State, x *ast.ForStmt) []Out {
 	} else if x.Cond != nil || true {
 		c.noDecreases[ord] = true
 	}
-	for _, o := range c.execBlock(b, x.Body.List) {
+	bodyOuts := c.execBlock(b, x.Body.List)
+	c.coverBody(bodyOuts, x)
+	for _, o := range bodyOuts {
 		switch o.flow {
 		case FNormal, FContinue:
 			s := o.st
@@ -1179,7 +1181,9 @@ func (c *FnCtx) execRange(st *State, x *ast.RangeStmt) []Out {
 	b := st
 	b.pc = append(b.pc, mkLt(iv, n))
 	bind(b, iv)
-	for _, o := range c.execBlock(b, x.Body.List) {
+	bodyOuts := c.execBlock(b, x.Body.List)
+	c.coverBody(bodyOuts, x)
+	for _, o := range bodyOuts {
 		switch o.flow {
 		case FNormal, FContinue:
 			env2 := map[string]*Term{}
@@ -1662,4 +1666,34 @@ func (c *FnCtx) rootGlobal(e ast.Expr) *types.Var {
 			return nil
 		}
 	}
+}
+
+
+// coverBody: vacuity guard for a loop - some path through the body (under the invariants and the loop condition) must be
+// consistent with everything assumed on it; if every path is contradictory the step obligations were discharged vacuously.
+func (c *FnCtx) coverBody(outs []Out, site ast.Node) {
+	if c.log != nil || len(outs) == 0 || len(outs) > 48 {
+		return
+	}
+	var pcs [][]*Term
+	for _, o := range outs {
+		pc := o.st.pc
+		if g := o.st.guard(); !isLit(g, "true") {
+			pc = append(append([]*Term(nil), pc...), g)
+		}
+		pcs = append(pcs, pc)
+	}
+	n := len(pcs[0])
+	for _, pc := range pcs[1:] {
+		k := 0
+		for k < n && k < len(pc) && pc[k] == pcs[0][k] {
+			k++
+		}
+		n = k
+	}
+	var disj []*Term
+	for _, pc := range pcs {
+		disj = append(disj, mkAnd(pc[n:]...))
+	}
+	c.obls = append(c.obls, &Obligation{Func: c.fi.Key, Kind: "cover:loop", Site: site.Pos(), Sub: fmt.Sprintf("loop%d", c.loopOrd[site]), Detail: "some path through the loop body is consistent with the invariants and all assumptions made on it", Assume: append([]*Term(nil), pcs[0][:n]...), Goal: mkOr(disj...), Cover: true})
 }
